@@ -211,12 +211,17 @@ func driveC14(seed int64, tier, out, replay string) {
 					if b.Kind == "explicit_id" && strings.Replace(b.Query, "id ", "", 1) == a.Query {
 						pairs = append(pairs, [2]gen.GenOp{a, b})
 					}
+					// two operations of one document: the same text, told apart by operationName only
+					if a.Kind == "multi_operation" && b.Kind == "multi_operation" && a.Query == b.Query && a.OperationName != b.OperationName {
+						pairs = append(pairs, [2]gen.GenOp{a, b})
+					}
 				}
 			}
 			n := 6 + rng.Intn(10)
 			big := 0
-			if len(pairs) > 0 && rng.Intn(2) == 0 {
-				p := pairs[rng.Intn(len(pairs))]
+			if len(pairs) > 0 {
+				// every history begins with one such pair, each pair in turn over the cases
+				p := pairs[idx%len(pairs)]
 				c.History = append(c.History, c14Event{Op: p[0]}, c14Event{Op: p[1]})
 			}
 			for k := 0; k < n; k++ {
